@@ -2117,6 +2117,12 @@ def c11_sockets(model, meta):
         for s in socks:
             for pid, fd in s.get("holders", []):
                 os.symlink(f"socket:[{s['inode']}]", f"{d}/{pid}/fd/{fd}")
+        # processes that are listed but whose fd directory is already gone (they exited during the scan): whatever their
+        # position in the listing, the holders found in the other processes must still be reported
+        for vp in model.get("vanished", []):
+            if vp not in pids:
+                os.makedirs(f"{d}/{vp}")
+                open(f"{d}/{vp}/stat", "wb").write(_stat_with_start(vp, 50 + vp))
         psutil.PROCFS_PATH = d
         try:
             got = psutil.net_connections(kind)
@@ -2170,6 +2176,8 @@ def c11_sockets_search(meta, seed, budget):
     ]
     for c in corpus:
         yield c
+        # the same table with processes vanishing during the fd scan, before / between / after the holders
+        yield dict(c, vanished=[2, 150, 250, 99999])
     for n in range(budget):
         socks = []
         inode = 1000
@@ -2189,7 +2197,8 @@ def c11_sockets_search(meta, seed, budget):
                 socks.append({"proto": proto, "ver": ver, "laddr": rng.choice(pool), "lport": rng.choice([0, 22, 65535, rng.randrange(1, 65536)]),
                               "raddr": rng.choice(pool), "rport": rng.choice([0, 0, 443, rng.randrange(1, 65536)]),
                               "st": rng.choice(list(TCP_STATES)), "inode": inode, "holders": holders})
-        yield {"sockets": socks, "kind": kinds[n % len(kinds)]}
+        yield {"sockets": socks, "kind": kinds[n % len(kinds)],
+               "vanished": rng.sample([2, 3, 101, 150, 199, 250, 301, 4000], rng.randrange(0, 4))}
 
 
 # ---------------------------------------------------------------------------
